@@ -26,10 +26,10 @@ PINS = {
          CC + 'CertificateConstraint.checkURIs', CC + 'urisToStrings', CC + 'checkResult.evaluate', CC + 'checkResult.error', CC + 'newCheckResult',
          M + 'Step.CheckCertConstraints', K + 'VerifyCertificateTrust', V + 'LoadLayoutCertificates', M + 'Layout.RootCAIDs'],
  'C08': ENTRY + [V + 'VerifySublayouts', V + 'GetSummaryLink'],
- 'C09': ENTRY + [V + 'RunInspections', R + 'InTotoRun'],
+ 'C09': ENTRY + [V + 'RunInspections', R + 'InTotoRun', V + 'VerifyArtifacts', V + 'verifyMatchRule', U + 'Set.Filter'],
  'C10': ENTRY + [V + 'SubstituteParameters', V + 'substituteParamatersInSlice', V + 'substituteParametersInSliceOfSlices',
                  V + 'VerifyLinkSignatureThesholds', V + 'ReduceStepsMetadata', V + 'verifyMatchRule', V + 'cleanArtifactPaths', V + 'VerifySublayouts'],
- 'C11': [M + 'Metablock.GetSignableRepresentation', E + 'Envelope.SetPayload', E + 'encodeJSONSortedKeys', E + 'loadEnvelope', U + 'loadPayload'],
+ 'C11': [M + 'Metablock.GetSignableRepresentation', M + 'Metablock.Sign', E + 'Envelope.Sign', E + 'Envelope.SetPayload', E + 'encodeJSONSortedKeys', E + 'loadEnvelope', U + 'loadPayload'],
  'C12': [M + 'LoadMetadata', M + 'readMetadataFile', M + 'Metablock.Load', M + 'Metablock.Dump', E + 'Envelope.Dump', M + 'checkRequiredJSONFields', U + 'loadPayload',
          M + 'ValidateMetablock', M + 'validateLayout', M + 'validateLayoutKeys', M + 'validateStep', M + 'validateInspection', M + 'validateSupplyChainItem',
          M + 'validateSliceOfArtifactRules', M + 'validateArtifactRule', M + 'validateLink', M + 'validateArtifacts', M + 'validateSliceOfSignatures',
